@@ -115,8 +115,8 @@ UNIT = dict(
     dict(id='get_read_indicator', file=F, sig=r'read_indicator& get_read_indicator\(int idx\) const',
          c_sig='static struct read_indicator* lr_get_read_indicator(struct left_right* self, int idx)',
          members=LR_MEMBERS,
-         post_subst=[(r'return (self->_read_indicator[12]);', r'return &\1;', 'ref_return')],
-         must_fire={'subst:ref_return': 2, 'member:_read_indicator1': 1, 'member:_read_indicator2': 1}),
+         ret_ref=True,
+         must_fire={'member:_read_indicator1': 1, 'member:_read_indicator2': 1}),
     dict(id='wait_for_readers', file=F, sig=r'void wait_for_readers\(int idx\)',
          c_sig='static void lr_wait_for_readers(struct left_right* self, int idx)',
          subst=[(r'std::this_thread::yield\(\);', ';', 'yield')],
